@@ -223,3 +223,31 @@ MUTANTS += [
     {"name": "c11-scan-every-other-tick", "prop": "C11", "checks": ["C11"],
      "edits": [(AR, "                    self.sleep()\n                    self.murder_workers()", "                    self.sleep()\n                    if int(time.time()) % 4 == 0:\n                        self.murder_workers()")]},
 ]
+
+BW = "gunicorn/workers/base.py"
+GE = "gunicorn/workers/ggevent.py"
+EV = "gunicorn/workers/geventlet.py"
+SO = "gunicorn/sock.py"
+MUTANTS += [
+    # ---- C04 -------------------------------------------------------------------------------
+    {"name": "c04-term-interrupts-syscalls", "prop": "C04", "checks": ["C04"],
+     "edits": [(BW, "        signal.siginterrupt(signal.SIGTERM, False)\n", "")]},
+    {"name": "c04-handle-exit-exits-at-once", "prop": "C04", "checks": ["C04"],
+     "edits": [(BW, "    def handle_exit(self, sig, frame):\n        self.alive = False", "    def handle_exit(self, sig, frame):\n        self.alive = False\n        sys.exit(0)")]},
+    {"name": "c04-stop-sends-quit", "prop": "C04", "checks": ["C04"],
+     "edits": [(AR, "        sig = signal.SIGTERM\n        if not graceful:\n            sig = signal.SIGQUIT", "        sig = signal.SIGQUIT")]},
+    {"name": "c04-halt-keeps-pidfile", "prop": "C04", "checks": ["C04"],
+     "edits": [(AR, "        if self.pidfile is not None:\n            self.pidfile.unlink()\n        self.cfg.on_exit(self)", "        self.cfg.on_exit(self)")]},
+    {"name": "c04-sockets-not-unlinked", "prop": "C04", "checks": ["C04"],
+     "edits": [(AR, "        sock.close_sockets(self.LISTENERS, unlink)", "        sock.close_sockets(self.LISTENERS, False)")]},
+    {"name": "c04-gthread-does-not-wait-for-handlers", "prop": "C04", "checks": ["C04"],
+     "edits": [(GT, "        futures.wait(self.futures, timeout=self.cfg.graceful_timeout)", "        pass")]},
+    {"name": "c04-no-kill-after-graceful-timeout", "prop": "C04", "checks": ["C04"],
+     "edits": [(AR, "            time.sleep(0.1)\n\n        self.kill_workers(signal.SIGKILL)", "            time.sleep(0.1)\n")]},
+    {"name": "c04-graceful-wait-doubled", "prop": "C04", "checks": ["C04"],
+     "edits": [(AR, "        limit = time.time() + self.cfg.graceful_timeout", "        limit = time.time() + 3 * self.cfg.graceful_timeout + 4")]},
+    {"name": "c04-halt-exit-status-one", "prop": "C04", "checks": ["C04"],
+     "edits": [(AR, "        except (StopIteration, KeyboardInterrupt):\n            self.halt()", "        except (StopIteration, KeyboardInterrupt):\n            self.halt(exit_status=1)")]},
+    {"name": "c04-gevent-no-graceful-wait", "prop": "C04", "checks": ["C04"],
+     "edits": [(GE, "            while time.time() - ts <= self.cfg.graceful_timeout:\n                accepting = 0", "            while time.time() - ts <= 0.01:\n                accepting = 0")]},
+]
